@@ -80,7 +80,10 @@ fn main() {
 		.with_block_size(512)
 		.with_enable_vlog(vlog || versioning);
 	opts.level0_max_files = l0;
-	let mut opts = opts.with_l0_stall_threshold(l0.max(2) * 4).with_memtable_stall_threshold(if manual { 64 } else { 4 });
+	// manual: flushes go through the hooks, which do not wake the level task - the stall limits must never be reached
+	let mut opts = opts
+		.with_l0_stall_threshold(if manual { 4096 } else { l0.max(2) * 4 })
+		.with_memtable_stall_threshold(if manual { 4096 } else { 4 });
 	if versioning {
 		opts = opts.with_versioning(true, 0).with_vlog_value_threshold(0);
 	} else if vlog {
@@ -143,6 +146,17 @@ fn main() {
 			}
 			Err(e) => {
 				mark(&json!({"ev":"commit_err","txn":id,"error":e.to_string()}).to_string());
+				// C15: nothing of a failed transaction is visible (value ids carry the transaction number)
+				if let Ok(r) = tree.begin() {
+					for (k, v) in &eff {
+						if let (Some(want), Ok(Some(got))) = (v.as_str(), r.get(k.as_bytes())) {
+							let head = String::from_utf8_lossy(&got[..got.iter().position(|b| *b == b'|').unwrap_or(got.len())]).to_string();
+							if head == want {
+								mark(&json!({"ev":"violation","kind":"failed_commit_visible","txn":id,"key":k}).to_string());
+							}
+						}
+					}
+				}
 			}
 		}
 		log.push(json!({"txn": id, "ok": r.is_ok(), "sync": immediate, "effect": eff}));
